@@ -20,9 +20,11 @@ const (
 	Garbage                       // a datagram that cannot be decoded
 	BadSig                        // in-session: authentic packet with a corrupted AuthCode
 	Lost                          // no reply
+	StrayOK                       // a well-formed (in-session: authentic) reply to a different command, normal code
+	StrayBusy                     // the same carrying the temporary code 0xC0
 )
 
-var outcomeNames = map[Outcome]string{Final: "final", FinalCC: "final-cc", FinalTruncated: "final-truncated", Busy: "busy", TimeoutCC: "timeout-code", Garbage: "garbage", BadSig: "bad-signature", Lost: "lost"}
+var outcomeNames = map[Outcome]string{Final: "final", FinalCC: "final-cc", FinalTruncated: "final-truncated", Busy: "busy", TimeoutCC: "timeout-code", Garbage: "garbage", BadSig: "bad-signature", Lost: "lost", StrayOK: "stray-reply", StrayBusy: "stray-reply-busy"}
 
 func (o Outcome) String() string { return outcomeNames[o] }
 
@@ -105,6 +107,19 @@ func ApplyOutcome(b *simbmc.BMC, rx *simbmc.Rx, o Outcome) {
 		}
 	case Lost:
 		rx.Replies = nil
+	case StrayOK, StrayBusy:
+		// Get Channel Info (App 0x42) unless that is what was asked; then Get
+		// Channel Access (0x41): neither is used by the checks' commands
+		other := *rx.Msg
+		other.Cmd, other.NetFn, other.Data = 0x42, ref.NetFnApp, nil
+		if rx.Msg.NetFn == ref.NetFnApp && rx.Msg.Cmd == 0x42 {
+			other.Cmd = 0x41
+		}
+		cc := byte(0)
+		if o == StrayBusy {
+			cc = 0xC0
+		}
+		rx.Replies = []memnet.Out{b.Wrap(sess, b.ResponseFor(&other, cc, []byte{1, 4, 0x81, 2, 0, 0, 0, 0, 0}).Bytes())}
 	}
 }
 
